@@ -90,7 +90,7 @@ class C16(HistoryProperty):
     )
     ASSUMPTIONS = ["no conflicting switch spellings", "no program node reads LABREA.* or AllOptions"]
     STUBS = HistoryProperty.STUBS + ["RecordingCache (real MemoryCache path, logged)", "logging sink handler on the program's logger", "pass-through LogRequest recorder"]
-    QUICK = {"runs": 10000, "wall": 40}
+    QUICK = {"runs": 20000, "wall": 40}
     THOROUGH = {"runs": 250000, "wall": 480}
     REQUIRED_CACHE = "recording"
     NONTRIVIAL_MEASURE = "history_many_vectors"
